@@ -6,6 +6,8 @@ CONSTANTS
   OrderedMerge = TRUE
   ReadsLeak = FALSE
   OrderedScan = FALSE
+  TableCalls = FALSE
+  Registers = FALSE
   Aliases = FALSE
 INVARIANT Functional
 CHECK_DEADLOCK FALSE
